@@ -606,7 +606,9 @@ class World:
             mc = MODES[mname]
             if q is not None and mc["start"] and "iid" in kwargs:
                 inst = self.attribute(mc["start"], kwargs)
-                self.enter(inst, ("mode", mname), self.pseudo_prio[("mode", mname)], q)
+                # (no locked-queue check here: whether the mode registers its own wait before or after
+                # posting will_start is an implementation detail)
+                self.enter(inst, ("mode", mname), self.pseudo_prio[("mode", mname)], None)
                 self.ctx.probe("mode_start_on_queue")
                 if mc["wq"]:
                     self.wait_begin(inst, ("mode", mname), "mode:%s" % mname)
